@@ -189,6 +189,8 @@ func runC10(cx *ctx) {
 			}
 		}
 	}
+	// what the generators above leave out (c10_extra.go)
+	c10Extra(cx)
 }
 
 // canonicalWithin: w matches ^[1-9][0-9]*$ and its value, as an unbounded integer, is at most max
